@@ -7,12 +7,14 @@ namespace CattrsModel.Heap
 open CattrsModel
 
 mutual
-/-- the members of every `Literal[...]` inside the type are leaf objects (as `typing.Literal` demands) -/
+/-- the members of every `Literal[...]` inside the type are leaf objects (as `typing.Literal` demands); every mapping
+type has the target class `dict` (the heap programs build `dict` cells only: `OrderedDict[K, V]` / `defaultdict[K, V]` /
+`Counter[K]` are outside the refinement, their instances are opaque to the store) -/
 def litLeaf : Ty → Bool
   | .lit vs => vs.all isLeafObj
   | .coll _ t => litLeaf t
   | .tupleHet ts => litLeafL ts
-  | .map _ kt vt => litLeaf kt && litLeaf vt
+  | .map mk kt vt => mk.target.isNone && litLeaf kt && litLeaf vt
   | .opt t => litLeaf t
   | .wrap _ t => litLeaf t
   | _ => true
